@@ -422,6 +422,47 @@ def build(spec):
     return spec
 
 
+def build_raw(spec):
+    """The case's VALUES, without running any constructor code of the message classes: dataclass instances are made with
+    object.__new__ and their fields set one by one, pydantic models with model_construct (no validators). What the real
+    constructors / __post_init__ / validators would change is therefore absent here: comparing a decoded message with this object
+    compares it with what the CASE says went in, not with what the constructor made of it."""
+    if isinstance(spec, list):
+        return [build_raw(x) for x in spec]
+    if isinstance(spec, dict):
+        if "$set" in spec:
+            return {build_raw(x) for x in spec["$set"]}
+        if "$t" in spec:
+            return tuple(build_raw(x) for x in spec["$t"])
+        if "$d" in spec:
+            return {build_raw(k): build_raw(v) for k, v in spec["$d"]}
+        if "$fs" in spec:
+            return frozenset(build_raw(x) for x in spec["$fs"])
+        if "$c" in spec:
+            c = registry()[spec["$c"]]
+            vals = {k: build_raw(v) for k, v in spec["f"].items()}
+            if hasattr(c, "model_construct"):
+                return c.model_construct(**vals)
+            o = object.__new__(c)
+            for k, v in vals.items():
+                object.__setattr__(o, k, v)
+            return o
+        return build(spec)
+    return spec
+
+
+def against_case(spec, d, what="decoded"):
+    """'' if the object `d` (decoded message, or the constructed one) carries exactly the values of the case"""
+    try:
+        raw = build_raw(spec)
+    except Exception as e:
+        return ""           # the raw form cannot be made (unhashable member ...): nothing to compare with
+    x = diff(raw, d)
+    if x:
+        return _d(f"{what} message differs from the values of the case: {x}", "case-value:" + (x.alter or "?"), x.field)
+    return ""
+
+
 NON_JSON_FORMS = {"$b": "bytes", "$set": "set", "$fs": "frozenset", "$t": "tuple", "$cx": "complex", "$dt": "datetime", "$date": "date",
                   "$uuid": "UUID", "$dec": "Decimal", "$path": "PurePosixPath", "$ba": "bytearray", "$mv": "memoryview"}
 
@@ -900,7 +941,7 @@ def run_exec(case):
             d = des_message(b)
         except Exception as e:
             return "decode-error", _err(e)
-        x = same_msg(d, m)
+        x = same_msg(d, m) or against_case(case["spec"], d)
         return ("ok", "") if not x else ("mismatch", x)
     if pipe.startswith("zmq_"):
         return _run_exec_zmq(case, m)
@@ -945,7 +986,7 @@ def run_exec(case):
         return "mismatch", "listener dropped the message"
     if pipe == "send_data" and not (type(d.value) is bytes and d.value == m.value):
         return "mismatch", "payload bytes differ"
-    x = same_msg(d, m)
+    x = same_msg(d, m) or against_case(case["spec"], d)
     return ("ok", "") if not x else ("mismatch", x)
 
 
@@ -1014,7 +1055,7 @@ def _run_exec_zmq(case, m):
             return "mismatch", _d(f"$.value: payload of {len(bytes(m.value))} bytes arrived as {_show_val(d.value)}", f"{vclass(m.value)}-content", "value")
         x = diff(m.value, d.value, "$.value")
         return ("ok", "") if not x else ("mismatch", x)
-    x = same_msg(d, m)
+    x = same_msg(d, m) or against_case(case["spec"], d)
     return ("ok", "") if not x else ("mismatch", x)
 
 
@@ -1075,7 +1116,8 @@ def _run_reporter(case, m):
         try:
             rep = report.Reporter(value)
             if case["mode"] == "result":
-                ds, payload = m.results[0] if m.results else (build({"$c": "core.DatasetId", "f": {"task": "t", "output": "o"}}), b"\x00payload")
+                raw_results = build_raw(case["spec"]["f"]["results"])      # the case's values, not what the constructor kept of them
+                ds, payload = raw_results[0] if raw_results else (build({"$c": "core.DatasetId", "f": {"task": "t", "output": "o"}}), b"\x00payload")
                 rep.send_result(ds, payload)
                 want = (None, [(ds, payload)])
             elif case["mode"] == "shutdown":
@@ -1097,7 +1139,7 @@ def _run_reporter(case, m):
         return "decode-error", _err(e)
     if connected != [case["addr"]]:
         return "mismatch", _d(f"$.address: reporter connected to {connected!r}, the gateway listens on {case['addr']!r}", "report-address", "address")
-    x = diff(m.job_id, d.job_id, "$.job_id") or diff(want[0], d.current_status, "$.current_status") or diff(want[1], d.results, "$.results")
+    x = diff(build_raw(case["spec"]["f"]["job_id"]), d.job_id, "$.job_id") or diff(want[0], d.current_status, "$.current_status") or diff(want[1], d.results, "$.results")
     if x:
         return "mismatch", x
     if type(d.timestamp) is not int:
@@ -1118,7 +1160,7 @@ def run_report(case):
         d = deserialize(b)
     except Exception as e:
         return "decode-error", _err(e)
-    x = same_msg(d, m)
+    x = same_msg(d, m) or against_case(case["spec"], d)
     return ("ok", "") if not x else ("mismatch", x)
 
 
@@ -1154,9 +1196,26 @@ def gen_gateway(rng):
         else:
             js["benchmark_name"] = None
             js["job_instance"] = gen_job(rng, prof)
-    if rsp_c.__name__ == "ResultRetrievalResponse" and rng.random() < 0.7:
-        rsp["f"]["result"] = base64.b64encode(gen_bytes(rng)).decode("ascii")
-    return {"family": "gateway", "cls": req_c.__name__, "pipe": "request_response", "spec": req, "rsp": rsp}
+    case = {"family": "gateway", "cls": req_c.__name__, "pipe": "request_response", "spec": req, "rsp": rsp}
+    if rsp_c.__name__ == "ResultRetrievalResponse":
+        r = rng.random()
+        if r < 0.3:
+            rsp["f"]["result"] = base64.b64encode(gen_bytes(rng)).decode("ascii")
+        elif r < 0.85:
+            # what the gateway really answers (server.handle_fe): base64 of the uploaded bytes, which are the cloudpickle stream of
+            # the result VALUE; the frontend gets the value back with api.decoded_result
+            import pickle
+            vp = Profile("pickle")
+            vs = gen_non_json(rng, vp) if rng.random() < 0.5 else gen_json_any(rng, vp)
+            if '"$dec": "NaN"' in json_key(vs):
+                vs = {"$dec": "1.10"}          # Decimal('NaN') != Decimal('NaN'): no equality to check a round trip with
+            try:
+                rsp["f"]["result"] = base64.b64encode(pickle.dumps(build(vs), protocol=rng.choice([2, 4, 5]))).decode("ascii")
+                rsp["f"]["error"] = None
+                case["result_value"] = vs
+            except Exception:
+                pass
+    return case
 
 
 class _FakeZmq:
@@ -1234,6 +1293,16 @@ def run_gateway(case):
     xs = [_d(f"$: {type(rsp).__name__} became {type(got).__name__}", "message-class", "")] if type(got) is not type(rsp) else diffs(rsp, got)
     if xs:
         return "mismatch", f"response parsed with {xs[0]}", "response", xs
+    if "result_value" in case and getattr(got, "result", None) is not None:
+        # the client-side decode of a retrieved result (api.decoded_result: base64, then cloudpickle): the VALUE that was uploaded
+        import cascade.gateway.api as gapi
+        try:
+            v = gapi.decoded_result(got, None)
+        except Exception as e:
+            return "decode-error", "decoded_result: " + _err(e), "result-value"
+        xs = diffs(build(case["result_value"]), v)
+        if xs:
+            return "mismatch", f"decoded_result gives {xs[0]}", "result-value", xs
     return "ok", "", ""
 
 
